@@ -9,6 +9,7 @@ mod disk;
 mod exec;
 mod fault;
 mod frames;
+mod gcfail;
 mod gen;
 mod names;
 mod obstacle;
@@ -384,6 +385,7 @@ fn main() {
         "frames" => frames::cmd(&args),
         "codec" => codec::cmd(&args),
         "obstacle" => obstacle::cmd(&args),
+        "gcfail" => gcfail::cmd(&args),
         "sigkill" => sigkill::cmd(&args),
         "killchild" => sigkill::child(&args),
         _ => {
